@@ -1,5 +1,6 @@
 SPECIFICATION Spec
-CONSTANTS NP = 2 MaxRuns = 3 MaxTouch = 2
+CONSTANTS MaxRuns = 3 MaxTouch = 2
+  Scens <- ScenPlain2
   Settings <- SettingsAll
   CreatedSetsChanged = TRUE
   KeepHistory = FALSE
@@ -11,4 +12,5 @@ INVARIANT ChangedOK
 INVARIANT NoRedo
 INVARIANT NoRedoPlot
 INVARIANT SkippedUntouched
+INVARIANT GroupRedone
 CHECK_DEADLOCK FALSE
